@@ -304,6 +304,9 @@ BUDGET_OPS = [('if', r'\bif\b'), ('match', r'\bmatch\b'), ('while', r'\bwhile\b'
               ('lt', r' < '), ('gt', r' > '), ('matches!', r'\bmatches!\s*\('), ('rem', r' % '), ('xor', r' \^ '), ('and', r' & ')] + \
              [('.' + m, r'\.\s*%s\s*\(' % m) for m in ('contains', 'starts_with', 'ends_with', 'eq', 'ne', 'cmp', 'strip_prefix', 'strip_suffix', 'find', 'position', 'any', 'all', 'filter',
                                                       'is_zero', 'checked_sub', 'checked_add', 'wrapping_sub', 'wrapping_add', 'count_ones', 'rem_euclid', 'abs', 'then', 'then_some', 'take_while', 'skip_while')]
+PLUMBING = {'map', 'collect', 'into_iter', 'iter', 'next', 'map_err', 'copied', 'cloned', 'transpose', 'then_with', 'try_from', 'try_into', 'map_or', 'map_or_else', 'and_then', 'ok', 'ok_or', 'ok_or_else',
+            'clone', 'len', 'into', 'from', 'to_owned', 'to_vec', 'to_string', 'as_ref', 'as_slice', 'as_str', 'unwrap_or_default', 'unwrap_or', 'new', 'default', 'with_capacity', 'push', 'extend', 'is_empty', 'is_some', 'is_none', 'rev', 'enumerate', 'zip', 'chain'}
+
 def f11(src, st):
     """per module: how many branching constructs / comparisons and which integer literals (how often) the non-test source holds.
     A needle (`if n == 4096 {..}`) that no stream will ever hit still adds a branch, a comparison or a literal.  String and character
@@ -343,6 +346,16 @@ def f11(src, st):
             for k in sorted(lits): out.append((mod, ('lit:%d' if k >= 10 else 'sml:%d') % k, lits[k]))      # one-digit literals: full budget only
             for k in sorted(strs): out.append((mod, 'str:' + k, strs[k]))
             for k in sorted(chrs): out.append((mod, 'chr:' + k, chrs[k]))
+    # external API surface: names of functions / methods the module calls that the crate does not define itself (presence, not count),
+    # minus the structure-preserving iterator / Option / Result plumbing that rewrites add freely.  `truncate`, `take`,
+    # `make_ascii_lowercase`, `encode_utf16`, `parse`, `sort_unstable_by_key`, `from_reader_with_recursion_limit` … are how a change of
+    # meaning looks when it adds no branch, comparison or literal (informed-adversary round, DESIGN.md §13).
+    defs = set()
+    for mod in MODS: defs |= set(re.findall(r'\bfn\s+(\w+)', src[mod]))
+    for mod in MODS:
+        s = re.sub(r'"(?:[^"\\\\]|\\\\.)*"', '""', src[mod])
+        names = set(m for m in re.findall(r'(?:\.|::)\s*([a-z_][a-z0-9_]*)\s*(?:::<[^>]*>)?\(', s) if m not in defs and m not in PLUMBING)
+        for k in sorted(names): out.append((mod, 'call:' + k, 1))
     st['F11'] = 'ok'
     return out
 
